@@ -7,8 +7,12 @@ constraints): for every statement list in which distinct `<--` statements have d
 gives every statement its own source range, tuple elements and anonymous-component inputs their
 own signal/access — there is exactly one report per `<--` statement, anchored at it, of exactly
 one of the two kinds; the secondary locations of a `signal assignment` report are exactly the
-constraint statements that read the assigned signal with the same access; nothing is reported
-for functions and custom templates, and nothing is attached to any other statement.
+constraint statements that mention the assigned signal — read it, or assign it with `<==`, with an
+access that may denote the same signal (`mayAlias`: equal port names, indices identified unless both
+are known and different, an array and its elements; until the `fix:` 8573db1 the accesses had to be
+equal, which missed `r[i]` constrained in another loop, a whole array constrained element by element
+and `c.in <== x` on another branch); nothing is reported for functions and custom templates, and
+nothing is attached to any other statement.
 -/
 import Circomspect.Model.SignalAssign
 
@@ -50,8 +54,8 @@ theorem assignRecords_length (ss : List Stmt) : (assignRecords ss).length = (ss.
     | assign l k q =>
       have : isAssign (Stmt.assign l k q) = true := rfl
       simp only [List.filterMap_cons, List.filter_cons, this, if_true, List.length_cons, ih]
-    | constraint l r =>
-      have : isAssign (Stmt.constraint l r) = false := rfl
+    | constraint l r t =>
+      have : isAssign (Stmt.constraint l r t) = false := rfl
       simp only [List.filterMap_cons, List.filter_cons, this, Bool.false_eq_true, if_false, ih]
     | other =>
       have : isAssign Stmt.other = false := rfl
@@ -85,22 +89,68 @@ theorem C08_kinds (ss : List Stmt) (r : Report) (hr : r ∈ findSignalAssignment
   | true => left; exact ⟨l, k, by simpa using e.symm, ha⟩
   | false => right; exact ⟨l, k, by simpa using e.symm, ha⟩
 
-/-- the secondary locations are exactly the constraint statements reading the assigned signal -/
+/-- the secondary locations are exactly the constraint statements mentioning the assigned signal: one of the uses the constraint
+    reads, or the target of a `<==`, has the signal's name and an access that may denote the same signal -/
 theorem C08_secondaries (ss : List Stmt) (k : Key) (c : Loc) :
-    c ∈ constraintLocs ss k ↔ ∃ reads, Stmt.constraint c reads ∈ ss ∧ k ∈ reads := by
+    c ∈ constraintLocs ss k ↔
+      ∃ reads target, Stmt.constraint c reads target ∈ ss ∧ ∃ r, r ∈ reads ++ target.toList ∧ mentions r k = true := by
   unfold constraintLocs constraints
-  simp only [List.mem_map, List.mem_filter, List.mem_eraseDups, List.mem_filterMap]
+  simp only [List.mem_map, List.mem_filter, List.mem_eraseDups, List.mem_filterMap, List.any_eq_true]
   constructor
   · rintro ⟨⟨l, r⟩, ⟨⟨s, hs, hsome⟩, hk⟩, e⟩
     cases s with
-    | constraint l' r' =>
+    | constraint l' r' t' =>
       simp at hsome; obtain ⟨e1, e2⟩ := hsome; subst e1; subst e2
       simp at e; subst e
-      exact ⟨r', hs, by simpa using hk⟩
+      exact ⟨r', t', hs, hk⟩
     | assign _ _ _ => simp at hsome
     | other => simp at hsome
-  · rintro ⟨reads, hs, hk⟩
-    exact ⟨(c, reads), ⟨⟨_, hs, rfl⟩, by simpa using hk⟩, rfl⟩
+  · rintro ⟨reads, target, hs, hk⟩
+    exact ⟨(c, reads ++ target.toList), ⟨⟨_, hs, rfl⟩, hk⟩, rfl⟩
+
+theorem accAlias_refl : ∀ a, accAlias a a = true
+  | .port _ => by simp [accAlias]
+  | .idx none => by simp [accAlias]
+  | .idx (some _) => by simp [accAlias]
+
+theorem accAlias_symm : ∀ a b, accAlias a b = accAlias b a
+  | .port a, .port b => by simp only [accAlias]; exact Bool.beq_comm
+  | .idx none, .idx none => rfl
+  | .idx none, .idx (some _) => rfl
+  | .idx (some _), .idx none => rfl
+  | .idx (some a), .idx (some b) => by simp only [accAlias]; exact Bool.beq_comm
+  | .port _, .idx none => rfl
+  | .port _, .idx (some _) => rfl
+  | .idx none, .port _ => rfl
+  | .idx (some _), .port _ => rfl
+
+/-- the comparison of accesses is reflexive and symmetric (it is not transitive: `r[0]`, `r[i]`, `r[1]`) … -/
+theorem C08_alias_refl : ∀ a, mayAlias a a = true
+  | [] => rfl
+  | x :: r => by simp [mayAlias, accAlias_refl, C08_alias_refl r]
+
+theorem C08_alias_symm : ∀ a b, mayAlias a b = mayAlias b a
+  | [], [] => rfl
+  | [], _ :: _ => rfl
+  | _ :: _, [] => rfl
+  | x :: r, y :: t => by simp [mayAlias, accAlias_symm x y, C08_alias_symm r t]
+
+/-- … an access aliases every extension of it (an array and its elements, a component and its ports) … -/
+theorem C08_alias_prefix : ∀ a ext, mayAlias a (a ++ ext) = true
+  | [], _ => by simp [mayAlias]
+  | x :: r, ext => by simp [mayAlias, accAlias_refl, C08_alias_prefix r ext]
+
+/-- … so every constraint the pass listed before the repair (a use with exactly the access of the assignment) is still listed -/
+theorem C08_equal_access_listed (ss : List Stmt) (k : Key) (c : Loc) (reads : List Key) (target : Option Key)
+    (hs : Stmt.constraint c reads target ∈ ss) (r : Key) (hr : r ∈ reads) (hn : r.name = k.name) (ha : r.acc = k.acc) :
+    c ∈ constraintLocs ss k := by
+  rw [C08_secondaries]
+  refine ⟨reads, target, hs, r, List.mem_append_left _ hr, ?_⟩
+  simp [mentions, hn, ha, C08_alias_refl]
+
+/-- two elements with indices known to be different do not alias; an unknown index aliases every element -/
+example : mayAlias [.idx (some "f0")] [.idx (some "f1")] = false ∧ mayAlias [.idx none] [.idx (some "f1")] = true
+    ∧ mayAlias [] [.idx (some "f1")] = true ∧ mayAlias [.port "in"] [.port "out"] = false := by decide
 
 /-- nothing for functions and custom templates -/
 theorem C08_none_for_functions_custom (ss : List Stmt) :
@@ -125,12 +175,21 @@ theorem C08_only_assignments (kind : Kind) (ss : List Stmt) (r : Report) (hr : r
       refine ⟨k', q', ?_⟩
       subst e
       cases q' <;> simpa [reportLoc] using hs
-    | constraint _ _ => simp at hsome
+    | constraint _ _ _ => simp at hsome
     | other => simp at hsome
 
-/-- non-vacuity -/
+/-- non-vacuity: `out <-- ..; out === in; for .. { s[i] <-- quadratic }; for .. { s[j] === .. }; c.in <-- ..; c.in <== ..` -/
+private def kOut : Key := ⟨"out", "out", []⟩
+private def kIn : Key := ⟨"in", "in", []⟩
+private def kSi : Key := ⟨"s[i.1]", "s", [.idx none]⟩
+private def kSj : Key := ⟨"s[j.1]", "s", [.idx none]⟩
+private def kCin : Key := ⟨"c.in", "c", [.port "in"]⟩
+private def kCout : Key := ⟨"c.out", "c", [.port "out"]⟩
 example : findSignalAssignments .template
-    [.assign (1, 2) "out" false, .constraint (3, 4) ["out", "in"], .assign (5, 6) "s[i]" true, .other] =
-    [.signalAssignment (1, 2) "out" [(3, 4)], .unnecessary (5, 6) "s[i]"] := by decide
+    [.assign (1, 2) kOut false, .constraint (3, 4) [kOut, kIn] none, .assign (5, 6) kSi true, .other,
+     .assign (7, 8) kSi false, .constraint (9, 10) [kSj, kIn] none,
+     .assign (11, 12) kCin false, .constraint (13, 14) [kIn] (some kCin), .constraint (15, 16) [kCout] none] =
+    [.signalAssignment (1, 2) kOut [(3, 4)], .unnecessary (5, 6) kSi, .signalAssignment (7, 8) kSi [(9, 10)],
+     .signalAssignment (11, 12) kCin [(13, 14)]] := by decide
 
 end Circomspect.C08
